@@ -103,6 +103,86 @@ impl Clone for CElem {
     }
 }
 
+/// A *large* element with a destructor (`fat <bytes>`): an `Elem` followed by padding. Everything observable is the `Elem`'s.
+pub struct FatElem<const P: usize> {
+    pub inner: Elem,
+    pub pad: [u8; P],
+}
+
+impl<const P: usize> FatElem<P> {
+    pub fn new(val: u64) -> Self {
+        Self { inner: Elem::new(val), pad: [(val & 0xff) as u8; P] }
+    }
+}
+
+impl<const P: usize> Clone for FatElem<P> {
+    fn clone(&self) -> Self {
+        Self { inner: self.inner.clone(), pad: self.pad }
+    }
+}
+
+/// A large `Copy` element (for `copied()`): payload and padding
+#[derive(Copy)]
+pub struct FatCElem<const P: usize> {
+    pub inner: CElem,
+    pub pad: [u8; P],
+}
+
+impl<const P: usize> Clone for FatCElem<P> {
+    fn clone(&self) -> Self {
+        Self { inner: self.inner.clone(), pad: self.pad }
+    }
+}
+
+impl<const P: usize> Payload for FatElem<P> {
+    fn val(&self) -> u64 {
+        // the padding travels with the element: a torn or shifted copy shows
+        if self.pad.first().map_or(false, |b| *b != (self.inner.val & 0xff) as u8) || self.pad.last().map_or(false, |b| *b != (self.inner.val & 0xff) as u8) {
+            return u64::MAX - 7;
+        }
+        self.inner.val
+    }
+    fn forget(self) {
+        std::mem::forget(self)
+    }
+}
+
+impl<const P: usize> Payload for &FatElem<P> {
+    fn val(&self) -> u64 {
+        (*self).inner.val
+    }
+    fn forget(self) {}
+}
+
+impl<const P: usize> Payload for FatCElem<P> {
+    fn val(&self) -> u64 {
+        self.inner.0
+    }
+    fn forget(self) {}
+}
+
+impl<const P: usize> Payload for &FatCElem<P> {
+    fn val(&self) -> u64 {
+        self.inner.0
+    }
+    fn forget(self) {}
+}
+
+/// Owning probe of large elements.
+pub struct FatProbe<const P: usize>(pub ProbeCore);
+
+impl<const P: usize> Iterator for FatProbe<P> {
+    type Item = FatElem<P>;
+
+    fn next(&mut self) -> Option<FatElem<P>> {
+        self.0.step().map(|(v, _)| FatElem::new(v))
+    }
+
+    fn size_hint(&self) -> (usize, Option<usize>) {
+        self.0.size_hint()
+    }
+}
+
 /// Access to the payload of whatever the iterator under test yields.
 pub trait Payload {
     fn val(&self) -> u64;
